@@ -459,6 +459,9 @@ class Command(Accessible):
                                        f' members!: {params} != {members}')
             self.argument.optional = [p for p,v in sig.parameters.items()
                    if v.default is not inspect.Parameter.empty]
+            # the argument with these optional members is a property of this command:
+            # it must not be replaced by an inherited one when properties are merged again
+            self.ownProperties['argument'] = self.argument
         if 'description' not in self.ownProperties and func.__doc__ is not None:
             self.description = inspect.cleandoc(func.__doc__)
             self.ownProperties['description'] = self.description
